@@ -883,8 +883,74 @@ def shared_multi(ctx, res):
                                                tables={e: [list(x) for x in t] for e, t in tables.items()}), detail=None))
 
 
+def blocking_two_threads(n_later=1):
+    """Two threads hand actions to ONE blocking handler (e.g. two forwarders built over one handler object): the
+    first action is still executing when the later ones are handed over.  The blocking handler reports in submission
+    order, so the later ones must wait: none runs before the first has finished and the responses come out first
+    to last.  The first action waits for a gate the harness opens, so the overlap is decided, not raced for."""
+    h = BoboActionHandlerBlocking()
+    started, gate = threading.Event(), threading.Event()
+    ran_early, errs = [], []
+
+    class First(BoboAction):
+        def execute(self, event):
+            started.set()
+            gate.wait(5)
+            return False, 1000
+
+    class Later(BoboAction):
+        def __init__(self, k):
+            super().__init__("a%d" % (k + 2))
+            self.k = k
+
+        def execute(self, event):
+            if not gate.is_set():
+                ran_early.append(self.k)
+            return True, 2000 + self.k
+
+    def submit(act, eid):
+        try:
+            h.handle(act, mk_event(eid, 7, 17))
+        except Exception as ex:      # noqa
+            errs.append(repr(ex))
+    ta = threading.Thread(target=submit, args=(First("a1"), 1), daemon=True)
+    ta.start()
+    if not started.wait(5):
+        return "the first action never started"
+    later = []
+    for k in range(n_later):
+        t = threading.Thread(target=submit, args=(Later(k), 2 + k), daemon=True)
+        t.start()
+        later.append(t)
+        time.sleep(0.05)
+    time.sleep(0.15)
+    early = list(ran_early)
+    gate.set()
+    for t in [ta] + later:
+        t.join(5)
+    got = []
+    while h.size() > 0:
+        r = h.get_handler_response()
+        got.append((r.action_name, r.complex_event.event_id, r.success, r.data))
+    if errs:
+        return "handle() raised %s" % errs
+    if early:
+        return "action(s) %s handed over later were executed while the first was still running" % [k + 2 for k in early]
+    if not got or got[0][0] != "a1" or len(got) != 1 + n_later:
+        return "handed over a1 first, responses came out as %s" % [g[0] for g in got]
+    if got[0][2:] != (False, 1000) or any(g[2:] != (True, 2000 + int(g[0][1:]) - 2) for g in got[1:]):
+        return "a response does not carry its own outcome: %s" % got
+    return None
+
+
 def run(ctx, res):
     shared_multi(ctx, res)
+    for n_later in (1, 2, 3):
+        bad = blocking_two_threads(n_later)
+        res.note_case(("blocking-two-threads", n_later), True)
+        if bad:
+            res.failures.append(dict(signature="blocking-handler-not-serialised", what="one blocking handler, two submitting threads: " + bad,
+                                     case=dict(kind="blocking-two-threads", n_later=n_later), detail=None))
     rng = ctx.rng
     q = ctx.quick
     SLOW["budget"] = 15.0 if q else 60.0
@@ -1127,6 +1193,10 @@ def replay_shared(case):
 def replay(obj):
     if (obj.get("case") or {}).get("kind") == "shared-multi":
         return replay_shared(obj["case"])
+    if (obj.get("case") or {}).get("kind") == "blocking-two-threads":
+        bad = blocking_two_threads(obj["case"]["n_later"])
+        print("oracle:", bad or "later submissions waited for the first; responses in submission order, own outcomes")
+        return 1 if bad else 0
     case = obj.get("case") or {}
     kind = case.get("kind")
     if kind is None and obj.get("mismatches"):
